@@ -1,5 +1,6 @@
 import AfkakProofs.Consumer.Trace
 import AfkakProofs.Consumer.A5_CR1
+import AfkakProofs.Consumer.A5_TwoRuns3
 import AfkakProps.Open.C03
 /-!
 # C03 — commits never run ahead of successfully processed messages
@@ -61,6 +62,77 @@ example :
         (fun | .ob (.fetch k off _) => some (k, off) | _ => none) = [(1, 42)] := by
   decide +kernel
 
+/-! ## Two consecutive runs sharing the coordinator's offset store ("a restarted consumer in the same group resumes
+exactly after the last committed message")
+
+Notions (decidable functions over traces, `AfkakProofs/Consumer/A5_TwoRuns1.lean`): `A5.delivered tr` = the messages handed
+to the processor, in order; `A5.commitOffs tr` = the offsets of the commit requests issued; `A5.storeOf tr` = the offset of
+the last commit request whose acknowledgement the consumer took (what the coordinator holds when the run ends);
+`A5.committed stored ms` = the messages of `ms` up to offset `stored`; `A5.oneSegment tr` = from the first block handed to
+the processor on, no `start()` and no offset reset; `A5.resumedFrom stored tr` = the first coordinator answer to an
+OffsetFetchRequest carried `stored`, nothing was handed to the processor before it, afterwards no `start()`, no offset
+reset, no second answer; `A5.firstFetchAfterAnswer tr` = the offset of the first FetchRequest after that answer;
+`Open.C02.chainOk log ms` = each message of `ms` is the log entry following the one before it. -/
+
+/-- Run 1 (any configuration, processor script, event list) delivers in one segment and ends with `stored ≥ 0` in the
+    coordinator's store; run 2 (any configuration, script, event list: another consumer object of the group, or the same
+    one after a crash) resumes from the coordinator's answer `stored`; both are served from the same partition log
+    (`FaithfulLog`).  Then
+    (a) run 2's first FetchRequest after the answer is at `stored + 1`, and the first message it hands to the processor is
+        the first log entry at or after `stored + 1`;
+    (b) `stored` is the offset of a message run 1 handed to the processor (by `C03_commit_le_processed` the last one of a
+        block whose processing SUCCEEDED), and the messages run 1 delivered up to `stored` - processed and committed -
+        followed by everything run 2 delivers are the log, entry by entry: no gap, no duplicate.  (What run 1 delivered
+        beyond `stored` was not committed and is delivered again by run 2: at least once overall, exactly once as far as
+        committed.) -/
+theorem C03_two_runs_exactly_once_committed (log : List Msg) (cfg1 : Cfg) (script1 : List PEntry) (evs1 : List Ev)
+    (cfg2 : Cfg) (script2 : List PEntry) (evs2 : List Ev) (stored : Int)
+    (hf1 : Open.C02.FaithfulLog log cfg1 script1 evs1) (hf2 : Open.C02.FaithfulLog log cfg2 script2 evs2)
+    (h1 : A5.oneSegment (trace cfg1 script1 evs1) = true)
+    (hst : A5.storeOf (trace cfg1 script1 evs1) = some stored) (h0 : 0 ≤ stored)
+    (h2 : A5.resumedFrom stored (trace cfg2 script2 evs2) = true) :
+    (∀ off, A5.firstFetchAfterAnswer (trace cfg2 script2 evs2) = some off → off = stored + 1) ∧
+    (∀ y, (A5.delivered (trace cfg2 script2 evs2)).head? = some y → C02.firstFrom log (stored + 1) = some y) ∧
+    (∃ x ∈ A5.delivered (trace cfg1 script1 evs1), x.off = stored) ∧
+    Open.C02.chainOk log
+      (A5.committed stored (A5.delivered (trace cfg1 script1 evs1)) ++ A5.delivered (trace cfg2 script2 evs2)) = true :=
+  A5.two_runs log cfg1 script1 evs1 cfg2 script2 evs2 stored hf1 hf2 h1 (A5.storeOf_mem _ _ hst) h0 h2
+
+/-- The same when the coordinator holds the offset of ANY commit request run 1 issued (a commit the broker applied but
+    whose acknowledgement run 1 never took: cancelled by `stop()`, lost, or the process died first). -/
+theorem C03_two_runs_unacknowledged_commit (log : List Msg) (cfg1 : Cfg) (script1 : List PEntry) (evs1 : List Ev)
+    (cfg2 : Cfg) (script2 : List PEntry) (evs2 : List Ev) (stored : Int)
+    (hf1 : Open.C02.FaithfulLog log cfg1 script1 evs1) (hf2 : Open.C02.FaithfulLog log cfg2 script2 evs2)
+    (h1 : A5.oneSegment (trace cfg1 script1 evs1) = true)
+    (hst : stored ∈ A5.commitOffs (trace cfg1 script1 evs1)) (h0 : 0 ≤ stored)
+    (h2 : A5.resumedFrom stored (trace cfg2 script2 evs2) = true) :
+    (∀ off, A5.firstFetchAfterAnswer (trace cfg2 script2 evs2) = some off → off = stored + 1) ∧
+    (∀ y, (A5.delivered (trace cfg2 script2 evs2)).head? = some y → C02.firstFrom log (stored + 1) = some y) ∧
+    (∃ x ∈ A5.delivered (trace cfg1 script1 evs1), x.off = stored) ∧
+    Open.C02.chainOk log
+      (A5.committed stored (A5.delivered (trace cfg1 script1 evs1)) ++ A5.delivered (trace cfg2 script2 evs2)) = true :=
+  A5.two_runs log cfg1 script1 evs1 cfg2 script2 evs2 stored hf1 hf2 h1 hst h0 h2
+
+/-! Non-vacuity: run 1 delivers offsets 0-1, commits 1 (acknowledged), then delivers 2 and ends without committing it; run 2
+starts from the committed position, the coordinator answers 1, it fetches at 2 and delivers 2-3.  Every hypothesis holds;
+committed ++ run 2 = the log. -/
+example :
+    let log : List Msg := [⟨0, 10⟩, ⟨1, 11⟩, ⟨2, 12⟩, ⟨3, 13⟩]
+    let cfg : Cfg := { group := true, autoN := 0, autoS := 0, bufInit := 100, bufMax := none, retryInit := 1, retryMax := 2,
+                       maxAttempts := 0, reset := none }
+    let evs1 : List Ev := [.start 0, .fetchOk 0 { msgs := [⟨0, 10⟩, ⟨1, 11⟩], tail := .done }, .commit, .commitOk 1, .retryFire,
+                           .fetchOk 2 { msgs := [⟨2, 12⟩], tail := .done }]
+    let evs2 : List Ev := [.start Afkak.Consts.offsetCommitted, .offsetFetchOk 0 1,
+                           .fetchOk 1 { msgs := [⟨2, 12⟩, ⟨3, 13⟩], tail := .done }]
+    Open.C02.FaithfulLog log cfg [] evs1 ∧ Open.C02.FaithfulLog log cfg [] evs2 ∧
+      A5.oneSegment (trace cfg [] evs1) = true ∧ A5.storeOf (trace cfg [] evs1) = some 1 ∧
+      A5.resumedFrom 1 (trace cfg [] evs2) = true ∧
+      A5.delivered (trace cfg [] evs1) = [⟨0, 10⟩, ⟨1, 11⟩, ⟨2, 12⟩] ∧
+      A5.firstFetchAfterAnswer (trace cfg [] evs2) = some 2 ∧
+      A5.committed 1 (A5.delivered (trace cfg [] evs1)) ++ A5.delivered (trace cfg [] evs2) = log := by
+  refine ⟨A.faithfulB_sound _ _ _ _ (by decide +kernel), A.faithfulB_sound _ _ _ _ (by decide +kernel), by decide +kernel,
+    by decide +kernel, by decide +kernel, by decide +kernel, by decide +kernel, by decide +kernel⟩
+
 end Afkak.Props.C03
 
 /- OBLIGATIONS
@@ -71,6 +143,8 @@ C03_resume
 C03_failure_stops_progress
 C03_crash_safe
 C03_commit_reports
+C03_two_runs_exactly_once_committed
+C03_two_runs_unacknowledged_commit
 -/
 /- OPEN_STATEMENTS
 -/
